@@ -75,6 +75,7 @@ def run(ctx):
         # structure — numbers as their JSON text, elements joined with "," — is part of the arithmetic's input
         from .c16 import string_form_clauses, to_string_role
         string_form_clauses(ctx, facts, roles, to_string_role(facts), cfg, K="K7")
+        strnum.container_elements_converted(ctx, facts, [roles.fn_of(o)[0].key for o in ("+", "-", "*", "/", "%", "min", "max")], cfg, "K6.container-through-string-form")
         convs = [b for b in facts.fns() if b.kind == "fn" and items.get(b.key, {}).get("inputs") == ["&serde_json::Value"] and items[b.key].get("output") == "std::option::Option<f64>"]
         number_style = [b for b in convs if s2n.key in facts.reach([b.key]) and any(callee_of(t) and callee_of(t)["local"] for _, t in b.calls())]
         float_style = [b for b in convs if s2n.key not in facts.reach([b.key]) and any(callee_of(t) and callee_of(t)["local"] for _, t in b.calls())]
